@@ -253,6 +253,79 @@ def terminate_histories(rng):
     return out
 
 
+# ---------------------------------------------------------------- API calls made from inside the log callback
+def reentrant_family(run, rng, hapi, bdir, thorough, only=None):
+    """Implementation only.  A host may call the API from its log callback.  While a call of an instance runs, a nested sqfvm_call on the SAME
+    instance answers -4 (documented: already running) and delivers nothing; sqfvm_status, sqfvm_load_config and calls on ANOTHER instance do
+    their work.  Whatever the nested call is and wherever it comes - at the first, a middle or the last record of the outer call - every record
+    of the outer call keeps the user data of its instance and the call data of THAT call, in order, the outer call returns its code, the
+    instance is idle afterwards and the next call delivers its value."""
+    hx = V.hx
+    def K(h, cd, text, ty="s"):
+        return "K%s:%d:%s:%s:-" % (h, cd, hx(ty), hx(text))
+    cases = []
+    outers = [('diag_log "a"; diag_log "b"; diag_log "c"; 7', ["a", "b", "c", "VALUE 7"], 0),
+              ('diag_log "a"; [] spawn { diag_log "s" }; diag_log "b"; 8', None, 0),
+              ('diag_log "a"; diag_log "b"; [1] select 5; diag_log "c"', None, -6),
+              ('diag_log "a"; diag_log __EVAL(1 + 1); 9', ["a", "2", "VALUE 9"], 0)]
+    nested = [("call-same", lambda: K("0", 22, 'diag_log "n"; 1'), -4),
+              ("call-same-pponly", lambda: K("0", 22, "x", "p"), -4),
+              ("call-same-failing", lambda: K("0", 22, "1 +"), -4),
+              ("status-same", lambda: "S0", None),
+              ("load-same", lambda: "L0:%s:-" % hx("class A { x = %d; };" % rng.randint(1, 9)), 0),
+              ("load-same-failing", lambda: "L0:%s:-" % hx("class A { x = ; };"), -3),
+              ("call-other", lambda: K("1", 33, 'diag_log "n"; 1'), 0),
+              ("load-other", lambda: "L1:%s:-" % hx("class B { y = 2; };"), 0)]
+    for oi, (otext, omarks, ocode) in enumerate(outers):
+        for nname, nop, nret in nested:
+            ks = [0, 1, 2, 3] if thorough else [rng.choice([0, 1]), rng.choice([2, 3])]
+            for k in ks:
+                cd = rng.randint(40, 90)
+                ops = ["C5:0", "C6:0", "W%d~%s" % (k, nop()), K("0", cd, otext), "S0", K("0", cd + 1, "diag_log 1; 2"), "S0", "S1", "D0", "D1"]
+                cases.append(({"kind": "reentrant:" + nname, "outer": otext, "nested_at_record": k, "call_data": cd, "ops": ops, "expected_nested_return": nret,
+                               "expected_outer_return": ocode}, omarks))
+    if only is not None:
+        cases = [(only, None)]
+    rc, out, _ = V.run_lines_parallel([hapi, "api", bdir], ["0\t" + "\t".join(c["ops"]) for c, _ in cases], timeout=3000)
+    n = 0
+    for (c, omarks), line in zip(cases, out):
+        n += 1
+        rep = dict(c, impl=line[:1500])
+        parts = line.split("|")
+        if len(parts) != len(c["ops"]):
+            run.violation("an API call made from inside the log callback crashed the host or did not return: " + line[:160], rep); continue
+        ret, recs = parts[3].split("{", 1)
+        recs = [r for r in recs.rstrip("}").split(",") if r]
+        cd = c["call_data"]
+        nest = [r for r in recs if r.startswith("NEST=")]
+        outer = [r for r in recs if r.startswith("5:")]
+        if c["kind"].startswith("reentrant:load-same") and nest:
+            # the nested sqfvm_load_config has no call data: its own diagnostics (directly in front of its return) carry NULL
+            i = recs.index(nest[0])
+            own = []
+            while i - 1 - len(own) >= 0 and recs[i - 1 - len(own)].startswith("5:0:"):
+                own.append(i - 1 - len(own))
+            outer = [r for j_, r in enumerate(recs) if r.startswith("5:") and j_ not in own]
+        why = None
+        if int(ret) != c["expected_outer_return"]:
+            why = "the outer call returned %s, its text alone returns %d" % (ret, c["expected_outer_return"])
+        elif any(not r.startswith("5:%d:" % cd) for r in outer):
+            why = "a record of the outer call arrived with other call data than that of its call (%d): %s" % (cd, [r for r in outer if not r.startswith("5:%d:" % cd)][:3])
+        elif nest and c["expected_nested_return"] is not None and nest[0] != "NEST=%d" % c["expected_nested_return"]:
+            why = "the nested call returned %s, documented: %d" % (nest[0][5:], c["expected_nested_return"])
+        elif c["kind"].startswith("reentrant:call-same") and any(r.startswith("5:22:") for r in recs):
+            why = "a nested call on the running instance (answer -4) delivered records"
+        elif omarks is not None and [r.split(":M<", 1)[1][:-1] for r in outer if ":M<" in r] != omarks:
+            why = "the outer call's markers are %s, its text alone logs %s" % ([r.split(":M<", 1)[1][:-1] for r in outer if ":M<" in r], omarks)
+        elif parts[4] != "0{}" or parts[6] != "0{}":
+            why = "the instance is not idle after the call (sqfvm_status %s / %s)" % (parts[4], parts[6])
+        elif not parts[5].startswith("0{") or ("5:%d:3:M<VALUE 2>" % (cd + 1)) not in parts[5]:
+            why = "the next call did not run and deliver its value under its own call data: " + parts[5][:120]
+        if why:
+            run.violation("C API contract broken around a call made from inside the log callback (%s at record %d of the outer call): %s" % (c["kind"][10:], c["nested_at_record"], why), rep)
+    return n
+
+
 def add_self_ending(h, rng, i, cd):
     """a call that ends the run itself, a status query, and calls that read / write the globals afterwards"""
     nm, text, stand_in = self_ending(rng)
@@ -369,7 +442,10 @@ def main(replay=None):
     g = VM.Gen(rng)
 
     hists = []
-    if replay:
+    rp_kind, rp_json = None, None
+    if replay and str(json.load(open(replay))["replay"].get("kind", "")).startswith("reentrant:"):
+        rp_json = json.load(open(replay))["replay"]; rp_kind = rp_json["kind"]; rp_json.pop("impl", None)
+    elif replay:
         r = json.load(open(replay))["replay"]
         h = Hist(); h.ops = r["ops"]; hists = [("replay", h)]
         for o in h.ops:
@@ -690,6 +766,10 @@ def main(replay=None):
         if not bad and len(samples) < 5 and kind == "random":
             samples.append({"history": hl[hidx][:300], "impl": il[:300]})
 
+    if not replay:
+        run.cov["reentrant_cases"] = reentrant_family(run, rng, hapi, bdir, thorough)
+    elif str(rp_kind).startswith("reentrant:"):
+        run.cov["reentrant_cases"] = reentrant_family(run, rng, hapi, bdir, thorough, only=rp_json)
     for p in problems:
         run.violation("proof obligation not discharged: " + p, {"broken": p, "theorems": run.cov["theorems"]}, found_input=False)
     run.cov["evaluations"] = evaluations
